@@ -264,56 +264,68 @@ theorem isText_of_parts {t : Str} (h1 : ∀ c ∈ t, isPrint c = true) (h2 : t.h
   simp only [isText, Bool.and_eq_true, List.all_eq_true, bne_iff_ne, ne_eq]
   exact ⟨⟨h1, h2⟩, h3⟩
 
-theorem isText_refHead (i : Nat) (r : RRef) (h : isText r.range = true) : isText (refHead i r) = true := by
+/-- the number written for a reference is a non-empty blank-free printable token: the position in digits, or
+the reference's own number -/
+theorem refNumber_tok (i : Nat) (r : RRef) (hn : r.number.all isVisible = true) :
+    refNumber i r ≠ [] ∧ (∀ c ∈ refNumber i r, isPrint c = true) ∧ ' ' ∉ refNumber i r := by
+  unfold refNumber
+  split
+  · refine ⟨ofNat_ne_nil (i + 1), fun c hc => isPrint_of_digit (ofNat_isDigit (i + 1) c hc), ?_⟩
+    intro h; have := ofNat_isDigit (i + 1) ' ' h; revert this; decide
+  · rename_i hne
+    simp only [List.all_eq_true, isVisible, Bool.and_eq_true, bne_iff_ne, ne_eq] at hn
+    exact ⟨hne, fun c hc => (hn c hc).1, fun h => (hn ' ' h).2 rfl⟩
+
+theorem isText_refHead (i : Nat) (r : RRef) (hn : r.number.all isVisible = true) (h : isText r.range = true) :
+    isText (refHead i r) = true := by
   obtain ⟨hp, hh, hl⟩ := isText_parts h
-  have hd := ofNat_isDigit (i + 1)
-  have hne := ofNat_ne_nil (i + 1)
-  obtain ⟨c, cs, hc⟩ : ∃ c cs, ofNat (i + 1) = c :: cs := by
-    cases hn : ofNat (i + 1) with
+  obtain ⟨hne, hd, hnsp⟩ := refNumber_tok i r hn
+  obtain ⟨c, cs, hc⟩ : ∃ c cs, refNumber i r = c :: cs := by
+    cases hn : refNumber i r with
     | nil => exact absurd hn hne
     | cons c cs => exact ⟨c, cs, rfl⟩
-  have hsp : isDigit ' ' = false := by decide
   unfold refHead
   split
   · simp only [List.append_nil]
     apply isText_of_parts
-    · intro x hx; exact isPrint_of_digit (hd x hx)
-    · rw [hc]; simp; rintro rfl; have := hd ' ' (by rw [hc]; simp); simp [hsp] at this
-    · intro hl'; have := hd ' ' (List.mem_of_getLast? hl'); simp [hsp] at this
+    · exact hd
+    · rw [hc]; simp; rintro rfl; exact hnsp (by rw [hc]; simp)
+    · intro hl'; exact hnsp (List.mem_of_getLast? hl')
   · rename_i hr
     apply isText_of_parts
     · intro x hx
       simp only [List.mem_append, List.mem_cons, List.not_mem_nil, or_false] at hx
       rcases hx with hx | (rfl | rfl) | hx
-      · exact isPrint_of_digit (hd x hx)
+      · exact hd x hx
       · decide
       · decide
       · exact hp x hx
-    · rw [hc]; simp; rintro rfl; have := hd ' ' (by rw [hc]; simp); simp [hsp] at this
+    · rw [hc]; simp; rintro rfl; exact hnsp (by rw [hc]; simp)
     · rw [getLast?_append_ne _ _ (by simp [hr]), getLast?_append_ne _ _ hr]; exact hl
 
 /-- index and range from the joined REFERENCE line -/
-theorem refHead_split (i : Nat) (r : RRef) (h : isText r.range = true) :
-    headOf (split (refHead i r) c!" ") = ofNat (i + 1) ∧
+theorem refHead_split (i : Nat) (r : RRef) (hn : r.number.all isVisible = true) (h : isText r.range = true) :
+    headOf (split (refHead i r) c!" ") = refNumber i r ∧
       (if (refHead i r).length > 1 then trimSpace (join c!" " ((split (refHead i r) c!" ").drop 1)) else []) = r.range := by
-  have hdsp := (digitFacts (ofNat_isDigit (i + 1))).nosp
+  obtain ⟨hnne, -, hdsp⟩ := refNumber_tok i r hn
+  have hnlen : 0 < (refNumber i r).length := List.length_pos_iff.mpr hnne
   unfold refHead
   split
   · rename_i hr
     simp only [List.append_nil, hr]
-    have : split (ofNat (i + 1)) c!" " = [ofNat (i + 1)] := splitC_of_not_mem ' ' _ hdsp
+    have : split (refNumber i r) c!" " = [refNumber i r] := splitC_of_not_mem ' ' _ hdsp
     rw [this]
     refine ⟨rfl, ?_⟩
     split <;> rfl
   · rename_i hr
     obtain ⟨hp, hh, hl⟩ := isText_parts h
-    have e : split (ofNat (i + 1) ++ (c!"  " ++ r.range)) c!" " = ofNat (i + 1) :: [] :: splitC ' ' r.range := by
-      show splitC ' ' (ofNat (i + 1) ++ ' ' :: (' ' :: r.range)) = _
+    have e : split (refNumber i r ++ (c!"  " ++ r.range)) c!" " = refNumber i r :: [] :: splitC ' ' r.range := by
+      show splitC ' ' (refNumber i r ++ ' ' :: (' ' :: r.range)) = _
       rw [splitC_append ' ' _ _ hdsp]
       simp [splitC]
     rw [e]
     refine ⟨rfl, ?_⟩
-    have hlen : (ofNat (i + 1) ++ (c!"  " ++ r.range)).length > 1 := by simp; omega
+    have hlen : (refNumber i r ++ (c!"  " ++ r.range)).length > 1 := by simp; omega
     simp only [hlen, if_true, List.drop_succ_cons, List.drop_zero]
     have hne := splitC_ne_nil ' ' r.range
     have hj : join c!" " ([] :: splitC ' ' r.range) = ' ' :: r.range := by
@@ -332,7 +344,7 @@ theorem refHead_split (i : Nat) (r : RRef) (h : isText r.range = true) :
 
 /-- what the record states about reference number `i` -/
 def toRef (i : Nat) (r : RRef) : Reference :=
-  { index := ofNat (i + 1), authors := r.authors, title := r.title, journal := r.journal
+  { index := refNumber i r, authors := r.authors, title := r.title, journal := r.journal
     pubmed := r.pubmed, remark := r.remark, range := r.range }
 
 theorem toRefs_cons (i : Nat) (r : RRef) (rs : List RRef) : toRefs i (r :: rs) = toRef i r :: toRefs (i + 1) rs := rfl
@@ -347,7 +359,7 @@ theorem joinLoop_stop (base stop : Str) (rest : List Str) (hs : Stop stop) : joi
 when the range is empty): a first line `REFERENCE   c0`, continuation chunks, and `joinSubLines` gives
 back `refHead` -/
 theorem refHeadLines_shape (i : Nat) (r : RRef) (ℓ : RefLayout) (stop : Str) (rest : List Str)
-    (hrange : isText r.range = true) (hstop : Stop stop) :
+    (hnum : r.number.all isVisible = true) (hrange : isText r.range = true) (hstop : Stop stop) :
     ∃ (c0 : Str) (conts : List Str), refHeadLines i r ℓ = (padRight c!"REFERENCE" 12 ++ c0) :: conts.map (spaces 12 ++ ·) ∧
       joinSubLines (split (padRight c!"REFERENCE" 12 ++ c0) c!" ") (conts.map (spaces 12 ++ ·) ++ stop :: rest)
         = .ok (refHead i r) := by
@@ -355,14 +367,13 @@ theorem refHeadLines_shape (i : Nat) (r : RRef) (ℓ : RefLayout) (stop : Str) (
   unfold refHeadLines
   split
   · rename_i h
-    refine ⟨ofNat (i + 1) ++ c!"  ", [], by simp [List.append_assoc], ?_⟩
-    have hd := ofNat_isDigit (i + 1)
-    have hne := ofNat_ne_nil (i + 1)
-    have hsp : isDigit ' ' = false := by decide
-    have hns : ∀ c ∈ ofNat (i + 1), isSpace c = false := fun c hc => isSpace_false_of_digit (hd c hc)
+    refine ⟨refNumber i r ++ c!"  ", [], by simp [List.append_assoc], ?_⟩
+    obtain ⟨hne, hd, hnsp⟩ := refNumber_tok i r hnum
+    have hns : ∀ c ∈ refNumber i r, isSpace c = false := fun c hc =>
+      isSpace_false_of_print (hd c hc) (by rintro rfl; exact hnsp hc)
     unfold joinSubLines
     rw [hpad, spaces_succ_append, join_drop_split c!"REFERENCE" _ (by decide)]
-    have e : spaces 2 ++ (ofNat (i + 1) ++ c!"  ") = spaces 2 ++ ofNat (i + 1) ++ spaces 2 := by simp [spaces]
+    have e : spaces 2 ++ (refNumber i r ++ c!"  ") = spaces 2 ++ refNumber i r ++ spaces 2 := by simp [spaces]
     rw [e, trimSpace_spaces 2 2 _ (fun c hc => hns c (List.mem_of_mem_head? hc)) (fun c hc => hns c (List.mem_of_getLast? hc))]
     simp only [List.map_nil, List.nil_append]
     rw [joinLoop_stop _ _ _ hstop]
@@ -370,7 +381,7 @@ theorem refHeadLines_shape (i : Nat) (r : RRef) (ℓ : RefLayout) (stop : Str) (
   · rw [block_eq]
     refine ⟨_, _, rfl, ?_⟩
     rw [hpad]
-    exact joinSubLines_chunks c!"REFERENCE" 2 (refHead i r) ℓ.range stop rest (by decide) (isText_refHead i r hrange) hstop
+    exact joinSubLines_chunks c!"REFERENCE" 2 (refHead i r) ℓ.range stop rest (by decide) (isText_refHead i r hnum hrange) hstop
 
 /-- REFERENCE: number, range and the five optional sub-keyword blocks are recovered, for every wrapping,
 whatever keyword line `m` follows -/
@@ -378,7 +389,7 @@ theorem getReference_lines (i : Nat) (r : RRef) (ℓ : RefLayout) (m : Str) (res
     (h : wfRef r = true) (hm : quickMetaCheck m = .ok true) :
     getReference (split ((refLines i r ℓ).headD []) c!" ") ((refLines i r ℓ).drop 1 ++ m :: rest) = .ok (toRef i r) := by
   simp only [wfRef, Bool.and_eq_true] at h
-  obtain ⟨⟨⟨⟨⟨hrange, hauth⟩, htitle⟩, hjour⟩, hpub⟩, hrem⟩ := h
+  obtain ⟨⟨⟨⟨⟨⟨hnum, hrange⟩, hauth⟩, htitle⟩, hjour⟩, hpub⟩, hrem⟩ := h
   have hS0 : StartsStop (m :: rest) := ⟨m, rest, rfl, Or.inl hm⟩
   have hS5 := StartsStop_optBlock c!"REMARK" r.remark ℓ.remark _ SubKw_remark hS0
   have hS4 := StartsStop_optBlock c!"PUBMED" r.pubmed ℓ.pubmed _ SubKw_pubmed hS5
@@ -389,14 +400,14 @@ theorem getReference_lines (i : Nat) (r : RRef) (ℓ : RefLayout) (m : Str) (res
     show c!"  " ++ c!"JOURNAL" = c!"  JOURNAL" from rfl, show c!"  " ++ c!"PUBMED" = c!"  PUBMED" from rfl,
     show c!"  " ++ c!"REMARK" = c!"  REMARK" from rfl] at hS1 hS2 hS3 hS4 hS5
   obtain ⟨stop, rest', hrest, hstop⟩ := hS1
-  obtain ⟨c0, conts, hshape, hbase⟩ := refHeadLines_shape i r ℓ stop rest' hrange hstop
+  obtain ⟨c0, conts, hshape, hbase⟩ := refHeadLines_shape i r ℓ stop rest' hnum hrange hstop
   unfold refLines
   rw [hshape]
   simp only [List.cons_append, List.headD_cons, List.drop_succ_cons, List.drop_zero, List.append_assoc]
   unfold getReference
   rw [hrest, hbase]
   simp only [Outcome.bind_ok']
-  obtain ⟨hidx, hrng⟩ := refHead_split i r hrange
+  obtain ⟨hidx, hrng⟩ := refHead_split i r hnum hrange
   rw [refLoop_skip_conts, ← hrest]
   have e1 := refLoop_optBlock_gen c!"AUTHORS" (fun r v => { r with authors := v }) SubKw_authors step_authors
   have e2 := refLoop_optBlock_gen c!"TITLE" (fun r v => { r with title := v }) SubKw_title step_title
@@ -411,8 +422,8 @@ theorem getReference_lines (i : Nat) (r : RRef) (ℓ : RefLayout) (m : Str) (res
   simp only [toRef, hidx]
   congr 1
   have : (if (refHead i r).length > 1 then
-      ({ index := ofNat (i + 1), range := trimSpace (join c!" " ((split (refHead i r) c!" ").drop 1)) } : Reference)
-      else { index := ofNat (i + 1) }) = { index := ofNat (i + 1), range := r.range } := by
+      ({ index := refNumber i r, range := trimSpace (join c!" " ((split (refHead i r) c!" ").drop 1)) } : Reference)
+      else { index := refNumber i r }) = { index := refNumber i r, range := r.range } := by
     split
     · rename_i hl; simp only [hl, if_true] at hrng; rw [hrng]
     · rename_i hl; simp only [hl, if_false] at hrng; rw [← hrng]
